@@ -239,6 +239,84 @@ def tex_lex_dyn(sched, s):
         out.append(t)
 
 
+def interpret_prim(text):
+    """Run TeX's lexer over `text`, executing every `\\catcode<digits>=<digits> ` it meets the way TeX does (the assignment
+    takes effect for the characters read after the number's terminating space; plasTeX's number scanner additionally
+    requests one more token before returning, which `prim` documents pin to the never-recategorised letter z).
+    Returns (schedule, counts, tokens-with-the-commands-removed) or None when the text is not of that shape."""
+    m = default_map()
+    lx = TexLexer(m, text)
+    sched, counts, out = [], [], []
+    ops, n = [], 0
+    while True:
+        t = lx.pull()
+        if t is None:
+            break
+        n += 1
+        if t != (0, 'catcode'):
+            out.append(t)
+            continue
+        cmd = [t]
+        def digits():
+            ds = ''
+            while True:
+                u = lx.pull()
+                if u is None:
+                    return ds, None
+                cmd.append(u)
+                if u[0] == 12 and u[1] in '0123456789':
+                    ds += u[1]
+                else:
+                    return ds, u
+        a, u = digits()
+        if not a or u != (12, '='):
+            return None
+        b, u = digits()
+        if not b or u != (10, ' ') or int(b) > 15 or int(a) > 0x10ffff:
+            return None
+        z = lx.pull()
+        if z != (11, 'z'):
+            return None
+        out.append(z)
+        n += len(cmd) - 1 + 1
+        sched.append((ops, n)); counts.append(len(cmd))
+        ops, n = ['%d=%d' % (int(a), int(b))], 0
+        m[chr(int(a))] = int(b)
+    sched.append((ops, 0)); counts.append(0)
+    return sched, counts, out
+
+
+PRIM_CHARS = '!@^%{\nxM~|'      # characters a `prim` document recategorises; \\, the letters of "catcode", z, digits, = and the blank keep their default codes
+
+
+def gen_prim(rng):
+    alpha = '!!@^^%{\n\nxM~| ab\\'
+    text = ''
+    for _ in range(rng.randint(1, 4)):
+        text += ''.join(rng.choice(alpha) for _ in range(rng.randint(0, 8)))
+        text += '\\catcode%d=%d z' % (ord(rng.choice(PRIM_CHARS)), rng.randint(0, 15))
+    text += ''.join(rng.choice(alpha) for _ in range(rng.randint(0, 10)))
+    r = interpret_prim(text)
+    if r is None or len(r[0]) < 2:
+        return None
+    sched, counts, _ = r
+    return Case('dyn', ' ; '.join(' '.join(o) + ' ; %d' % k_ for o, k_ in sched) + ' | ' + enc(text), {'prim': counts})
+
+
+def strip_prim(canon_s, sched, counts):
+    """remove the tokens of the \\catcode commands (the last counts[i] of segment i's pulls, before its look-ahead z)"""
+    toks = canon_s.split(' ') if canon_s else []
+    out, i = [], 0
+    for (ops, n), c in zip(sched, counts):
+        seg = toks[i:i + n]; i += n
+        if c:
+            if len(seg) != n or seg[n - c - 1] != 'E:99,97,116,99,111,100,101':
+                return None
+            seg = seg[:n - c - 1] + seg[n - 1:]
+        out += seg
+    return ' '.join(out + toks[i:])
+
+
 # ---------------------------------------------------------------- generation
 
 ALPHA13 = ['\\', '{', '%', '^', ' ', '\n', 'a', '1', '@', '\x00', '\r', 'M', '~']
@@ -297,6 +375,16 @@ def generate(ctx):
         alpha = '!!aa\\\\%^^ @@{\n\nxM'
         s_ = ''.join(rng.choice(alpha) for _ in range(rng.randint(0, 14)))
         yield Case('dyn', ' ; '.join(' '.join(o) + ' ; %d' % k_ for o, k_ in segs) + ' | ' + enc(s_), None)
+    # the same, with the assignments made by the \\catcode primitive inside the document (all 16 codes)
+    for c in PRIM_CHARS:
+        for k in range(16):
+            r = interpret_prim('a%sb\\catcode%d=%d za%sb%s%s x' % (c, ord(c), k, c, c, c))
+            if r is not None:
+                yield Case('dyn', ' ; '.join(' '.join(o) + ' ; %d' % k_ for o, k_ in r[0]) + ' | ' + enc('a%sb\\catcode%d=%d za%sb%s%s x' % (c, ord(c), k, c, c, c)), {'prim': r[1]})
+    for _ in range(1500 if ctx.tier == 'quick' else 30000):
+        c_ = gen_prim(rng)
+        if c_ is not None:
+            yield c_
     n = 6000 if ctx.tier == 'quick' else 150000
     for _ in range(n):
         k = rng.choice([3, 6, 10, 20, 40, 200]) if rng.random() < 0.9 else rng.randint(0, 8)
@@ -382,6 +470,25 @@ def parse_dyn(case):
 def impl(case, aux):
     from plasTeX.Tokenizer import Tokenizer
     ctx = _ctx()
+    if case.stream == 'dyn' and case.meta and 'prim' in case.meta:
+        # the document itself carries the \\catcode commands; the real primitive executes them
+        from plasTeX.TeX import TeX
+        sched, s = parse_dyn(case)
+        set_table(ctx, [])
+        out = []
+        try:
+            tex = TeX(_env['doc'])
+            tex.input(s)
+            for t in tex.itertokens():
+                if getattr(t, 'nodeType', None) == 1:
+                    return 'err:element-in-token-stream'
+                if t.catcode == 0 and str(t) == 'catcode':
+                    _env['doc'].createElement('catcode').invoke(tex)
+                else:
+                    out.append((t.catcode, str(t)))
+            return canon(out)
+        except Exception as e:
+            return 'err:' + type(e).__name__
     if case.stream == 'dyn':
         sched, s = parse_dyn(case)
         set_table(ctx, [])
@@ -417,6 +524,18 @@ def impl(case, aux):
 
 
 def judge(o):
+    if o.case.stream == 'dyn' and o.case.meta and 'prim' in o.case.meta:
+        sched, s = parse_dyn(o.case)
+        counts = o.case.meta['prim']
+        full = canon(tex_lex_dyn(sched, s))
+        o.spec = strip_prim(full, sched, counts)
+        model = strip_prim(o.model, sched, counts)
+        if o.spec is None:                 # not a well-formed prim document (hand-made replay): nothing is claimed
+            o.spec = '-'; o.corr_ok = o.prop_ok = True; o.in_domain = False
+            return
+        o.corr_ok = (o.impl == model)
+        o.prop_ok = (o.impl == o.spec)
+        return
     if o.case.stream == 'dyn':
         sched, s = parse_dyn(o.case)
         o.spec = canon(tex_lex_dyn(sched, s))
@@ -436,6 +555,8 @@ def judge(o):
 
 def shrink(ctx, o, evaluate):
     """delta-debug the string (and drop table ops) keeping the property failure"""
+    if o.case.stream == 'dyn' and o.case.meta:
+        return o
     if o.case.stream == 'dyn':
         best = o
         changed = True
